@@ -163,7 +163,7 @@ theorem parseNewlineOption_spec (buf : Buf) (skip : Bool) (st : PState) (hs : St
     (hb : Buf3 T st.latex.length buf) :
     Post' (parseNewlineOption T buf skip st) (fun r st' => Fr T st st' ∧ Buf3 T st.latex.length r) := by
   simp only [parseNewlineOption]
-  have hb1 : Buf3 T st.latex.length (if skip = true then (match lookAhead buf with
+  have hb1 : Buf3 T st.latex.length (if skip = true then (match lookAheadSL buf with
                             | some t => if txtIsNV t "[" = true then skipSpace buf else buf
                             | none => buf) else buf) := by
     split
@@ -173,7 +173,7 @@ theorem parseNewlineOption_spec (buf : Buf) (skip : Bool) (st : PState) (hs : St
         · exact hb
       · exact hb
     · exact hb
-  generalize (if skip = true then (match lookAhead buf with
+  generalize (if skip = true then (match lookAheadSL buf with
                             | some t => if txtIsNV t "[" = true then skipSpace buf else buf
                             | none => buf) else buf) = buf1 at hb1
   cases buf1 with
